@@ -375,6 +375,8 @@ class ADD:
     @classmethod
     def stack(cls, factors: List[int], elements: Dict[Tuple[int, ...], "ADD"]) -> "ADD":
         num_candidates = next(iter(elements.values())).num_candidates
+        if len(factors) == 0 and len(elements) == 1:
+            return next(iter(elements.values()))
         if len(elements) != num_candidates ** len(factors):
             raise ValueError(
                 "Given %d factors, the number of elements has to be exactly %d."
